@@ -237,6 +237,38 @@ func singletonSpecs() []struct{ name, spec string } {
 		{"security-cookie-key-only", doc(`"security":[{"c":[]}],`+ok, `{"securitySchemes":{"c":{"type":"apiKey","in":"cookie","name":"sid"}}}`)},
 		{"security-custom-only", doc(`"security":[{"x":[]}],`+ok, `{"securitySchemes":{"x":{"type":"apiKey","in":"header","name":"X","x-ogen-custom-security":true}}}`)},
 	}
+	// one name in several locations (the generator prefixes the location) next to names that already look prefixed,
+	// in several declaration orders
+	pdecl := func(name, in string) string {
+		req := ""
+		if in == "path" {
+			req = `,"required":true`
+		}
+		return `{"name":"` + name + `","in":"` + in + `"` + req + `,"schema":{"type":"string"}}`
+	}
+	sets := [][][2]string{
+		{{"id", "query"}, {"Query-Id", "header"}, {"id", "path"}},
+		{{"id", "path"}, {"Path-Id", "header"}, {"id", "query"}},
+		{{"id", "query"}, {"id", "header"}, {"id", "cookie"}, {"id", "path"}},
+		{{"id", "header"}, {"Header-Id", "query"}, {"id", "cookie"}, {"Cookie-Id", "query2"}, {"id", "path"}},
+		{{"query_id", "query"}, {"id", "query"}, {"id", "path"}, {"path_id", "header"}, {"QueryID", "cookie"}},
+		{{"Id", "query"}, {"ID", "header"}, {"id", "path"}, {"iD", "cookie"}},
+	}
+	for si, set := range sets {
+		for rot := 0; rot < len(set); rot++ {
+			var ps []string
+			for k := range set {
+				e := set[(k+rot)%len(set)]
+				in := e[1]
+				name := e[0]
+				if in == "query2" {
+					in, name = "query", name+"2"
+				}
+				ps = append(ps, pdecl(name, in))
+			}
+			out = append(out, struct{ name, spec string }{fmt.Sprintf("same-parameter-name-across-locations-%d-%d", si, rot), `{"openapi":"3.0.3","info":{"title":"t","version":"1"},"paths":{"/a/{id}":{"get":{"operationId":"a","parameters":[` + strings.Join(ps, ",") + `],` + ok + `}}}}`})
+		}
+	}
 	out = append(out, struct{ name, spec string }{"path-params-only", `{"openapi":"3.0.3","info":{"title":"t","version":"1"},"paths":{"/a/{x}/{y}.json":{"get":{"operationId":"a","parameters":[{"name":"x","in":"path","required":true,"schema":{"type":"array","items":{"type":"integer"}}},{"name":"y","in":"path","required":true,"style":"matrix","schema":` + obj + `}],` + ok + `}}}}`})
 	out = append(out, struct{ name, spec string }{"webhook-only", `{"openapi":"3.1.0","info":{"title":"t","version":"1"},"paths":{},"webhooks":{"e":{"post":{"operationId":"hook","requestBody":{"content":{"application/json":{"schema":` + obj + `}}},"responses":{"200":{"description":"ok"}}}}}}`})
 	out = append(out, struct{ name, spec string }{"servers-with-variables-only", `{"openapi":"3.0.3","info":{"title":"t","version":"1"},"servers":[{"url":"https://{region}.example.com/{base}","x-ogen-server-name":"prod","variables":{"region":{"default":"eu","enum":["eu","us"]},"base":{"default":"v1"}}}],"paths":{"/a":{"get":{"operationId":"a",` + ok + `}}}}`})
